@@ -49,7 +49,7 @@ def gen_projects(rng, n, alap=False, limits=True, containers=True, sub_slot=True
         res = []
         for i in range(nres):
             r = {"id": f"r{i}", "eff": rng.choice([1.0, 1.0, 0.5]), "dailymax": rng.choice([None, None, 4]) if limits else None,
-                 "leave": rng.choice([None, None, 1, 2])}
+                 "leave": rng.choice([None, None, 1, 2]), "hours": rng.choice([None, None, None, (10, 16), (8, 12)])}
             res.append(r)
         ntask = rng.randint(2, 4)
         tasks = []
@@ -94,6 +94,8 @@ def render(p, rename=None, extra_task=None, comments=False, precedes=False, scen
             body.append(f"efficiency {r['eff']}")
         if r["dailymax"]:
             body.append(f"limits {{ dailymax {r['dailymax']}h }}")
+        if r.get("hours"):
+            body.append(f"workinghours mon - fri {r['hours'][0]:02d}:00 - {r['hours'][1]:02d}:00")
         if r["leave"] is not None:
             d = (p["start"] + dt.timedelta(days=r["leave"])).strftime("%Y-%m-%d")
             d1 = (p["start"] + dt.timedelta(days=r["leave"] + 1)).strftime("%Y-%m-%d")
@@ -161,8 +163,10 @@ def ledger(proj, sc=0):
     return out
 
 
-def default_working(d):
-    return d.weekday() < 5 and 9 <= d.hour < 17
+def default_working(d, r=None):
+    """working time of resource r (own `workinghours mon - fri a:00 - b:00` if declared, else the default 9-17)"""
+    a, b = (r or {}).get("hours") or (9, 17)
+    return d.weekday() < 5 and a <= d.hour < b
 
 
 # ---------------------------------------------------------------------------------------------------------------
@@ -185,7 +189,7 @@ def check_common(p, proj, fails, key, want):
                 d = proj.idxToDate(s)
                 r = res_by[rid]
                 on_leave = r["leave"] is not None and d.date() == (p["start"] + dt.timedelta(days=r["leave"])).date()
-                if not default_working(d) or on_leave:
+                if not default_working(d, r) or on_leave:
                     fails.append({"clause": "C02:outside-working-time", "key": key, "detail": f"{rid} booked at {d}"})
         if "C05" in want and res_by[rid]["dailymax"]:
             per_day = defaultdict(float)
@@ -279,7 +283,7 @@ def check_common(p, proj, fails, key, want):
                 # re-applied offset in a later slot is the recorded finding D3 and is not re-reported through this clause)
                 used = max(sum(sec for _, sec in led[t["res"]].get(sl, [])), used_total[t["res"]].get(sl, 0.0))
                 mine = sum(sec for tf, sec in led[t["res"]].get(sl, []) if tf == fid)
-                if default_working(d) and not on_leave and used < D - 1e-6 and mine == 0 and d >= bound:
+                if default_working(d, r) and not on_leave and used < D - 1e-6 and mine == 0 and d >= bound:
                     fails.append({"clause": "C08:idle-slot", "key": key, "detail": f"{fid}: free working slot {d} between {bound} and {e}"})
                     break
                 sl += 1
@@ -321,7 +325,7 @@ def reference_schedule(p):
             d = hours(k)
             on_leave = r["leave"] is not None and d.date() == (p["start"] + dt.timedelta(days=r["leave"])).date()
             lim_ok = not r["dailymax"] or perday[r["id"]][d.date()] < r["dailymax"]
-            if default_working(d) and not on_leave and k not in busy[r["id"]] and lim_ok:
+            if default_working(d, r) and not on_leave and k not in busy[r["id"]] and lim_ok:
                 busy[r["id"]].add(k)
                 perday[r["id"]][d.date()] += 1
                 got += 1
